@@ -1002,7 +1002,7 @@ def dom_exhaustive(run, thorough):
     shapes = [(3, 4), (2, 3)] if thorough else [(3, 4)]
     L_full = 3 if thorough else 2
     mu = Multi(run, 'sequences',
-               'ALL sequences of length <= %d over a menu of %d concrete operations (every operation kind, scalar/list/tuple/array '
+               'ALL admissible sequences of length <= %d over a menu of %d concrete operations (every operation kind, scalar/list/tuple/array '
                'values, by ghost / duplicate-valued / index descriptors)%s applied to an object of %s (RDMs x conditions; NaN entry; '
                'list- and array-typed descriptors, vector / F-ordered / matrix / 1-D input) with two partner objects; every step of '
                'every sequence checked' % (L_full, len(MENU), '' if thorough else ' and of length 3 over a sub-menu of %d' % len(MENU_SMALL),
@@ -1227,8 +1227,9 @@ def dom_partials(run, thorough):
                'from_partials of two partial RDMs: ALL pairs of arrangements (ordered subsets of >= 2 conditions) of a universe of 3 '
                'conditions%s, pattern list default / reversed / reversed with a condition in no partial, int and str descriptor; '
                'followed by subset_pattern and a second from_partials; single partial'
-               % (' and of 4 conditions' if thorough else '; universe of 4: all arrangements against 6 sampled ones'),
-               exhaustive=True)
+               % (' and of 4 conditions' if thorough else '; universe of 4: all arrangements against 6 sampled ones (default and '
+                  'reversed+extra pattern list only)'),
+               exhaustive=bool(thorough))
     for n_u in (3, 4):
         univ = list(range(n_u))
         arr = list(_arrangements(univ, 2))
